@@ -337,9 +337,20 @@ func Generate(prop, tier string, seed uint64) *Plan {
 		}
 		// (a checkpoint needs four segments; the jump of one and a half block ranges makes exactly the range below the
 		// boundary compactable, so that the boundary is the truncation time and its samples stay in the head)
-		p.Ops = append(p.Ops, Op{K: "commit", Slot: 0}, Op{K: "restart"}, Op{K: "restart"}, Op{K: "restart"}, Op{K: "app", Slot: 0},
+		p.Ops = append(p.Ops, Op{K: "commit", Slot: 0}, Op{K: "restart"}, Op{K: "restart"}, Op{K: "restart"})
+		if prop == "C03" && cfg.Crash && r.Chance(0.6) {
+			// one more segment without a new chunk snapshot (a kill, not a shutdown): the checkpoint of the compaction
+			// below then gets the very index the last snapshot was taken at
+			p.Ops = append(p.Ops, Op{K: "app", Slot: 0}, Op{K: "add", Slot: 0, S: r.Intn(cfg.NSeries), TB: "now", TO: 0},
+				Op{K: "crashnext", N: int64(r.Range(0, 3))}, Op{K: "commit", Slot: 0})
+		}
+		p.Ops = append(p.Ops, Op{K: "app", Slot: 0},
 			Op{K: "add", Slot: 0, S: r.Intn(cfg.NSeries), TB: "now", TO: 3 * cfg.R / (2 * cfg.Step)},
 			Op{K: "commit", Slot: 0}, Op{K: "compact"})
+		if prop == "C03" && cfg.Crash {
+			p.Ops = append(p.Ops, Op{K: "app", Slot: 0}, Op{K: "add", Slot: 0, S: r.Intn(cfg.NSeries), TB: "now", TO: 1},
+				Op{K: "crashnext", N: int64(r.Range(0, 3))}, Op{K: "commit", Slot: 0})
+		}
 		if r.Chance(0.5) {
 			p.Ops = append(p.Ops, Op{K: "restart"})
 		}
